@@ -1436,7 +1436,12 @@ func (a *Authenticator) storeClientSession(negotiation *SecurityNegotiation, dur
 	}
 
 	// Create session entry with remote address (using sinful string)
-	entry := NewSessionEntry(negotiation.SessionId, serverAddr, keyInfo, policy, expiration, lease, "")
+	// File the session under the security tag it was negotiated with: the lookup in
+	// ClientHandshake is keyed by {tag, addr, cmd}, so a session filed under the
+	// empty tag would never be found by the tagged handshake that created it and
+	// would instead be ridden by untagged handshakes to the same server.
+	tag := a.config.SecurityTag
+	entry := NewSessionEntry(negotiation.SessionId, serverAddr, keyInfo, policy, expiration, lease, tag)
 
 	// Store in cache
 	cache.Store(entry)
@@ -1447,7 +1452,7 @@ func (a *Authenticator) storeClientSession(negotiation *SecurityNegotiation, dur
 		for _, cmd := range commands {
 			cmd = strings.TrimSpace(cmd)
 			if cmd != "" {
-				cache.MapCommand("", serverAddr, cmd, negotiation.SessionId)
+				cache.MapCommand(tag, serverAddr, cmd, negotiation.SessionId)
 			}
 		}
 	}
